@@ -27,17 +27,33 @@ package collection
 //@   ensures [value] result1 ==> result0.val == smGet(m, key) && result0.tag == smTag(m, key)
 //@   modifies nothing
 
+// Representation invariant: two distinct maps with disjoint key sets (a key lives in exactly one of them).
+//@ macro smOK(m) = m != nil && m.dirtyOld != nil && m.dirtyNew != nil && m.dirtyOld != m.dirtyNew && forallk(k, int, !(has(m.dirtyOld, k) && has(m.dirtyNew, k)))
+// Del, with its two migration loops, proved against the abstract view: exactly the deleted key disappears, every
+// other key keeps its value - whichever of the maps it lived in and whether or not a migration runs.
+// dO / dN: the two maps right after the deletion (in terms of the entry state), K the deleted key.
+//@ macro dO(m, key, k) = old(has(m.dirtyOld, k)) && k != ifacekey(key)
+//@ macro dN(m, key, k) = old(has(m.dirtyNew, k)) && !(k == ifacekey(key) && !old(has(m.dirtyOld, ifacekey(key))))
 //@ func (*SafeMap).Del
 //@   prop C10
-//@   trusted map-range migration loops are outside the engine's proved subset; the abstract effect is assumed
-//@   requires m != nil
-//@   ensures forallk(k, int, smHas(m, k) == (old(smHas(m, k)) && k != ifacekey(key)))
-//@   ensures forallk(k, int, smHas(m, k) ==> smGet(m, k) == old(smGet(m, k)) && smTag(m, k) == old(smTag(m, k)))
+//@   requires smOK(m)
+//@   loop 1 invariant m.dirtyOld == old(m.dirtyOld) && m.dirtyNew == old(m.dirtyNew)
+//@   loop 1 invariant forallk(k, int, has(m.dirtyOld, k) == dO(m, key, k) && (has(m.dirtyOld, k) ==> m.dirtyOld[k] == old(m.dirtyOld[k])))
+//@   loop 1 invariant forallk(k, int, has(m.dirtyNew, k) == (dN(m, key, k) || dO(m, key, k) && visited(m.dirtyOld, k)))
+//@   loop 1 invariant forallk(k, int, has(m.dirtyNew, k) ==> m.dirtyNew[k] == ite(dO(m, key, k), old(m.dirtyOld[k]), old(m.dirtyNew[k])))
+//@   loop 2 invariant m.dirtyOld == old(m.dirtyOld) && m.dirtyNew == old(m.dirtyNew)
+//@   loop 2 invariant forallk(k, int, has(m.dirtyNew, k) == dN(m, key, k) && (has(m.dirtyNew, k) ==> m.dirtyNew[k] == old(m.dirtyNew[k])))
+//@   loop 2 invariant forallk(k, int, has(m.dirtyOld, k) == (dO(m, key, k) || dN(m, key, k) && visited(m.dirtyNew, k)))
+//@   loop 2 invariant forallk(k, int, has(m.dirtyOld, k) ==> m.dirtyOld[k] == ite(dN(m, key, k), old(m.dirtyNew[k]), old(m.dirtyOld[k])))
+//@   ensures [only-that-key-gone] forallk(k, int, smHas(m, k) == (old(smHas(m, k)) && k != ifacekey(key)))
+//@   ensures [others-keep-their-values] forallk(k, int, smHas(m, k) ==> smGet(m, k) == old(smGet(m, k)) && smTag(m, k) == old(smTag(m, k)))
+//@   ensures [representation-kept] smOK(m)
 //@   modifies m.dirtyOld, m.dirtyNew, m.deletionOld, m.deletionNew, mapsof(m.dirtyOld)
 
 //@ func (*SafeMap).Put
 //@   prop C10
-//@   requires m != nil && m.dirtyOld != nil && m.dirtyNew != nil
+//@   requires smOK(m)
+//@   ensures [representation-kept] smOK(m)
 //@   ensures [has] forallk(k, int, smHas(m, k) == (old(smHas(m, k)) || k == ifacekey(key)))
 //@   ensures [others] forallk(k, int, k != ifacekey(key) && smHas(m, k) ==> smGet(m, k) == old(smGet(m, k)) && smTag(m, k) == old(smTag(m, k)))
 //@   ensures [stored] smGet(m, ifacekey(key)) == val.val && smTag(m, ifacekey(key)) == val.tag
@@ -55,7 +71,7 @@ package collection
 //@ macro twTimersOK(w) = forallk(k, int, (has(w.timers.dirtyOld, k) ==> twEntryOK(w, w.timers.dirtyOld[k]))
 //@   | && (has(w.timers.dirtyNew, k) ==> twEntryOK(w, w.timers.dirtyNew[k])))
 //@ macro twOK(w) = w != nil && w.numSlots >= 1 && 0 <= w.tickedPos && w.tickedPos < w.numSlots && w.interval > 0
-//@   | && len(w.slots) == w.numSlots && w.timers != nil
+//@   | && len(w.slots) == w.numSlots && smOK(w.timers)
 
 //@ func (*TimingWheel).moveTask
 //@   prop C10, C17
@@ -84,6 +100,7 @@ package collection
 //@   prop C10, C17
 //@   opaque runTasks, setTimerPosition
 //@   requires twOK(w) && l != nil
+//@   loop 1 invariant smOK(w.timers)
 //@   let e0 = at_head(e)
 //@   let t = unbox(at_head(e.Value), ptr(timingEntry))
 //@   let removed0 = at_head(unbox(e.Value, ptr(timingEntry)).removed)
@@ -478,3 +495,7 @@ package collection
 //@   prop C09
 //@   requires rw != nil
 //@   ensures rw.ignoreCurrent
+
+//@ func NewSafeMap
+//@   prop C10
+//@   ensures [empty-and-well-formed] smOK(result) && forallk(k, int, !smHas(result, k)) && fresh(result)
